@@ -55,6 +55,34 @@ func judgeBitFrac(c BitFracCase) *eng.Fail {
 	return nil
 }
 
+// BitSpellCase: integers inside int64 written as a coefficient times a power of ten, as products or as text.
+type BitSpellCase struct {
+	A  string `json:"a"`
+	B  string `json:"b"`
+	VA int64  `json:"va"`
+	VB int64  `json:"vb"`
+}
+
+var c18BitSpell *eng.Kind[BitSpellCase]
+
+func judgeBitSpell(c BitSpellCase) *eng.Fail {
+	src := "[" + c.A + " & " + c.B + ", " + c.A + " | " + c.B + ", " + c.A + " ^ " + c.B + ", ~" + c.A + "]"
+	o, err := evalWith(src, map[string]interface{}{})
+	if err != nil || o.panicked || o.err != nil {
+		return eng.F("C18/eval", "%s: %v %v %s", src, err, o.err, o.panicMsg)
+	}
+	arr := o.val.([]interface{})
+	want := []int64{c.VA & c.VB, c.VA | c.VB, c.VA ^ c.VB, ^c.VA}
+	for k, name := range []string{"&", "|", "^", "~"} {
+		d, ok := decOf(arr[k])
+		if !ok || !d.Finite() || d.Cmp(ref.FromInt64(want[k])) != 0 {
+			return eng.F("C18/bit-spelling", "%s %s %s = %s, expected %d (the operands are the integers %d and %d)", c.A, name, c.B, show(arr[k]), want[k], c.VA, c.VB)
+		}
+	}
+	outcome(fmt.Sprint("spell", want))
+	return nil
+}
+
 // ConvCase: toFloat / finite on non-number inputs.
 type ConvCase struct {
 	Expr string `json:"expr"`
@@ -80,6 +108,7 @@ func init() {
 	c18Bit = eng.NewKind(c, "bits", judgeBits)
 	c18Conv = eng.NewKind(c, "conv", judgeConv)
 	c18BitFrac = eng.NewKind(c, "bits-fraction", judgeBitFrac)
+	c18BitSpell = eng.NewKind(c, "bits-spelled", judgeBitSpell)
 }
 
 var half = big.NewRat(1, 2)
@@ -403,6 +432,14 @@ func c18Grid(quick bool) []string {
 	for _, l := range []string{"1e800", "1e-800", "2.5e400", "4e-401", "1e5000", "9e-5000", "900", "1000", "12345.5", "1e6", "701", "1e-7000", "3e6200"} {
 		add(l)
 	}
+	// fractions written with more than 64 decimal places (exact ties and ordinary values; the value has few
+	// significant digits, so that every function is judged exactly)
+	z64, z70 := strings.Repeat("0", 64), strings.Repeat("0", 70)
+	for _, f := range []string{"0.75", "0.5", "0.25", "0.49", "0.51", "0.999", "1.5", "2.5", "0.05", "7.5", "0.0"} {
+		add(f + z64)
+		add(f + z70)
+	}
+	add("0.5" + strings.Repeat("0", 100))
 	add("1.001")
 	add("170.6")
 	add("2.718281828459045")
@@ -504,6 +541,26 @@ func runC18(w *eng.W) {
 			c := BitFracCase{a, b}
 			w.Sample("bits-fraction", c)
 			c18BitFrac.Do(w, c)
+		}
+	}
+	spelled := []struct {
+		s string
+		v int64
+	}{{"1e18", 1e18}, {"9e18", 9e18}, {"(-9e18)", -9e18}, {"5e18", 5e18}, {"(3e9 * 3e9)", 9e18}, {"toFloat('4e18')", 4e18}, {"90e17", 9e18}, {"9.2e18", 9200000000000000000}, {"1e17", 1e17},
+		{"123e16", 1230000000000000000}, {"0.9e19", 9e18}, {"9000000000e9", 9e18}, {"(2e18 + 2e18)", 4e18}, {"1e0", 1}, {"1e1", 10}, {"12e2", 1200}, {"(-1e18)", -1e18}, {"1000e-3", 1}, {"7e15", 7e15}, {"1e9", 1e9},
+		{"(1e19 / 10)", 1e18}, {"(-3e18 * 3)", -9e18}, {"9223372036854775807", math.MaxInt64}, {"1", 1}, {"(-1)", -1}}
+	for _, a := range spelled {
+		if !w.Take() {
+			continue
+		}
+		for _, b := range spelled {
+			w.State(1)
+			w.Trans(4)
+			w.Trace(1)
+			w.Note("leg:bits-spelled", 1)
+			c := BitSpellCase{a.s, b.s, a.v, b.v}
+			w.Sample("bits-spelled", c)
+			c18BitSpell.Do(w, c)
 		}
 	}
 	// conversions
